@@ -176,3 +176,28 @@ func H_readd_then_stale() {
 	verifJ(w, " after re-add, late notifications and Remove")
 	verifReach("readd-then-stale")
 }
+
+// C08: names built from concrete entry names under unusual Add arguments.
+func H_names_concrete() {
+	verifKReset()
+	w := verifNewInotify(0)
+	paths := [...]string{".", "rel/d", "/t", "..", "a b", "-x"}
+	names := [...]string{"file", ".hidden", "-dash", "sp ace", "ünï", "a.b"}
+	p := paths[verifChoose("path", len(paths))]
+	n := names[verifChoose("name", len(names))]
+	verifK.addResolve = 0
+	verifAssert(w.Add(p) == nil, "Add")
+	wd := uint32(verifK.nextWd)
+	var buf [65536]byte
+	ev := (*unix.InotifyEvent)(unsafe.Pointer(&buf[0]))
+	ev.Wd = int32(wd)
+	ev.Mask = unix.IN_CREATE
+	ev.Len = uint32((len(n)/16 + 1) * 16)
+	copy(buf[16:], n)
+	got, ok := w.handleEvent(ev, &buf, 0)
+	verifAssert(ok && got.Op == Create, "Create delivered")
+	verifAssert(got.Name == p+"/"+n, "entry events are named: the cleaned Add argument, a separator, the entry name - nothing re-cleaned or resolved")
+	self, ok2 := verifDeliver(w, wd, unix.IN_ATTRIB, 0)
+	verifAssert(ok2 && self.Name == p, "events on the watched path itself carry the cleaned Add argument")
+	verifReach("names-concrete")
+}
